@@ -4,6 +4,7 @@ import (
 	"bytes"
 	"fmt"
 	"math/big"
+	"sync"
 
 	cs "github.com/tendermint/tendermint/consensus"
 	"github.com/tendermint/tendermint/mempool"
@@ -30,7 +31,8 @@ type signRec struct {
 
 // monitor holds the oracles of the consensus-network simulation.
 type monitor struct {
-	s *sim
+	s  *sim
+	mu sync.Mutex // onSigned is called from node goroutines (several at once in real-ticker mode)
 
 	decided   map[int64][]byte // height -> decided block hash (first decision seen)
 	decidedBy map[int64]int
@@ -264,6 +266,8 @@ func (s *sim) onWALWrite(n *simNode, msg cs.WALMessage, synced bool) {}
 // onSigned sees every signature the node's key releases.
 func (s *sim) onSigned(n *simNode, chainID string, v *tmproto.Vote, p *tmproto.Proposal) {
 	m := s.mon
+	m.mu.Lock()
+	defer m.mu.Unlock()
 	rec := signRec{inc: n.inc}
 	if v != nil {
 		rec.h, rec.r, rec.typ = v.Height, v.Round, int(v.Type)
